@@ -83,6 +83,65 @@ pub fn batch_case(n: usize) -> Case {
     }
 }
 
+/// `predict` is the final activation of `forward`, and `predict_batch` / `validate` aggregate that same value, for every
+/// kind of network wiring: plain, feedback block, skip connection, loop connection, both, spatial layers
+pub fn wiring_case(name: &'static str, input: Shape, layers: Vec<L>, skips: Vec<(usize, usize)>, loops: Vec<(usize, usize, usize)>) -> Case {
+    Case {
+        id: format!("C12/predict-is-forward/{}", name),
+        property: "C12",
+        family: "Network::{predict,predict_batch}",
+        class: "predict-is-forward".into(),
+        no_ties: false,
+        max_paths: 64,
+        run: Box::new(move |ctx| {
+            let mut net = build_net(input.clone(), &layers);
+            symbolize(ctx, &mut net, "");
+            for (i, l) in net.layers.iter_mut().enumerate() {
+                if let L::Feedback(b, _, _, _, _) = &layers[i] {
+                    symbolize_feedback(ctx, l, b.len(), &format!("L{}", i));
+                }
+            }
+            for (a, b) in skips.iter() {
+                net.connect(*a, *b);
+            }
+            for (outof, into, k) in loops.iter() {
+                net.loopback(*outof, *into, *k, std::sync::Arc::new(|x| lit(1.0) / x), false);
+            }
+            let xs: Vec<Tensor> = (0..2).map(|i| input_tensor(ctx, &input, &format!("x{}", i))).collect();
+            let refs: Vec<&Tensor> = xs.iter().collect();
+            let batch = net.predict_batch(&refs);
+            ctx.fact("count", batch.len() == 2, format!("{}", batch.len()));
+            let mut losses = Vec::new();
+            let nout = {
+                let (_, activated, _, _) = net.forward(&xs[0]);
+                elems(activated.last().unwrap()).len()
+            };
+            let ts: Vec<Tensor> = (0..2).map(|i| t1(&v1(ctx, &format!("t{}", i), nout))).collect();
+            for i in 0..2 {
+                let (_, activated, _, _) = net.forward(&xs[i]);
+                let last = activated.last().unwrap().clone();
+                let p = net.predict(&xs[i]);
+                let (a, b) = (elems(&p), elems(&last));
+                ctx.fact(&format!("shape[{}]", i), dims(&p) == dims(&last), format!("{:?} vs {:?}", dims(&p), dims(&last)));
+                for j in 0..a.len().min(b.len()) {
+                    ctx.claim(&format!("predict-is-last-activation[{}][{}]", i, j), Th::Fp, B::Ident(a[j], b[j]));
+                }
+                if i < batch.len() {
+                    let c = elems(&batch[i]);
+                    for j in 0..c.len().min(b.len()) {
+                        ctx.claim(&format!("batch-is-last-activation[{}][{}]", i, j), Th::Fp, B::Ident(c[j], b[j]));
+                    }
+                }
+                // the loss validate reports is the loss of the forward output
+                losses.push(net.verif_loss(&rewrap(&ts[i], &b), &ts[i]).0);
+            }
+            let tr: Vec<&Tensor> = ts.iter().collect();
+            let (loss, _) = net.validate(&refs, &tr, lit(0.5));
+            ctx.eq("validate-loss-is-loss-of-forward-output", loss, sum(&losses) / lit(2.0));
+        }),
+    }
+}
+
 pub fn validate_case(n: usize, obj: Obj, out_act: Act, symbolic_weights: bool) -> Case {
     Case {
         id: format!("C12/validate/n{}/{}/{}/{}", n, obj.name(), out_act.name(), if symbolic_weights { "symbolic-weights" } else { "concrete-weights" }),
@@ -210,6 +269,20 @@ pub fn cases(tier: Tier, _seed: u64) -> Vec<Case> {
             out.push(validate_case(n, Obj::CrossEntropy, Act::Softmax, false));
             out.push(validate_case(n, Obj::BinaryCrossEntropy, Act::Sigmoid, false));
         }
+    }
+    // predict / predict_batch / validate against `forward` itself for every wiring
+    use Act::*;
+    let d = |n: usize, a: Act| L::Dense(n, a, true);
+    out.push(wiring_case("plain", Shape::Single(2), vec![d(2, Tanh), d(2, Linear)], vec![], vec![]));
+    out.push(wiring_case("feedback-block", Shape::Single(2), vec![L::Feedback(vec![d(2, Tanh), d(2, Linear)], 2, false, false, Acc::Mean), d(1, Linear)], vec![], vec![]));
+    out.push(wiring_case("skip", Shape::Single(2), vec![d(2, Tanh), d(2, Linear), d(2, Linear)], vec![(1, 2)], vec![]));
+    out.push(wiring_case("loopback", Shape::Single(2), vec![d(2, Tanh), d(2, Linear), d(1, Linear)], vec![], vec![(1, 0, 1)]));
+    out.push(wiring_case("skip+loopback", Shape::Single(2), vec![d(2, Tanh), d(2, Linear), d(2, Linear)], vec![(1, 2)], vec![(1, 1, 1)]));
+    out.push(wiring_case("conv-pool-dense", Shape::Triple(1, 3, 3), vec![L::Conv(1, (2, 2), (1, 1), (0, 0), (1, 1), Tanh), L::Pool((1, 1), (1, 1)), d(2, Linear)], vec![], vec![]));
+    if full {
+        out.push(wiring_case("loopback-two-passes", Shape::Single(2), vec![d(2, Linear), d(2, Tanh), d(1, Linear)], vec![], vec![(1, 0, 2)]));
+        out.push(wiring_case("two-loopbacks", Shape::Single(2), vec![d(2, Linear), d(2, Tanh), d(2, Linear)], vec![], vec![(0, 0, 1), (2, 1, 1)]));
+        out.push(wiring_case("deconv-dense", Shape::Triple(1, 2, 2), vec![L::Deconv(1, (2, 2), (1, 1), (0, 0), Linear), d(2, Tanh)], vec![], vec![]));
     }
     out.push(control_case());
     out
